@@ -314,11 +314,11 @@ def run_harness(h, logdir, timeout_scale=1.0):
     timeout = float(h["to"]) * timeout_scale
     slot = SLOTS.get()
     try:
-        rc, timed_out, wall = run_proc(kani_cmd(h, slot=slot), timeout, logpath)
+        rc, timed_out, wall = run_proc(kani_cmd(h, slot=slot), timeout, logpath, mem_gb=int(h.get("mem", "12")))
         text = open(logpath, errors="replace").read()
         if "kani_middle::analysis::print_stats" in text:
             # Kani ICE in its --verbose statistics printer on some MIR (fmt/serde code): retry without it
-            rc, timed_out, wall = run_proc(kani_cmd(h, slot=slot, verbose=False), timeout, logpath)
+            rc, timed_out, wall = run_proc(kani_cmd(h, slot=slot, verbose=False), timeout, logpath, mem_gb=int(h.get("mem", "12")))
             text = open(logpath, errors="replace").read()
     finally:
         SLOTS.put(slot)
